@@ -132,3 +132,15 @@ example : ∃ e, classify { cacheable := true } = some e ∧ e.group = .staticGr
   C06_static_complete_cacheable _ rfl rfl rfl rfl rfl rfl (Or.inl rfl) rfl rfl rfl (Or.inl rfl)
 
 end Nject
+
+namespace Nject
+open Gen
+
+/-- C04 (cache keys): every registry entry that memoizes requires inputs that can be map keys and
+    installs the run-time key check — a memoized provider can never be asked to hash a slice, map or
+    func (regenerated registry; decide). -/
+theorem C04_memoized_entries_guard_their_keys :
+    ∀ e ∈ handlerRegistry, e.memoized = true →
+      e.mapKeyCheck = true ∧ Pred.pMappableInputs ∈ e.tests ∧ Pred.pPossibleMapKey ∈ e.tests := by decide
+
+end Nject
